@@ -40,6 +40,11 @@ def run(ctx, chk):
                            "float2/float4/float8 callback; the builders wired to those fields construct that width")
     chk.rule("C15.half-total", "cbor_encode_half is loop-free, contains no division and no failing call, and every path that "
                                "has room ends in the 3-byte primitive with initial byte 0xF9")
+    chk.rule("C15.half-classes", "class dispatch of the half decoder, for all 65536 patterns: the integer path conditions are "
+                                 "evaluated per pattern (bit-field terms only, no floating-point evaluation); exponent 31 must "
+                                 "return the constants infinity (mantissa 0) or a NaN, every other pattern the scaled-mantissa "
+                                 "computation, negated exactly when the sign bit is set")
+    check_half_classes(chk, prog, eff)
     chk.not_decided += ["that _cbor_decode_half computes the IEEE-754 value of each of the 65536 patterns, that cbor_encode_half "
                         "inverts it (subnormals, rounding, exponent classes) and that its two variable-distance shifts stay in "
                         "range: facts about arithmetic on runtime values; goto-analyzer returns UNKNOWN / aborts on them (DESIGN §1.3)"]
@@ -176,3 +181,83 @@ def run(ctx, chk):
                 allprim = isinstance(v, Inst) and v.op == "call" and v.callee == "_cbor_encode_uint16"
     chk.ob("C15.half-total", "every return is the primitive's result", allprim, "%s:%d" % (h.file, h.line), fn=h.name)
     chk.exhaustive = True
+
+
+def check_half_classes(chk, prog, eff):
+    import termeval
+    f = prog.fn("_cbor_decode_half")
+    where = "%s:%d" % (f.file, f.line)
+    ps = P.Executor(prog, eff).run(f.name)
+    if f.back_edges():
+        raise AnalysisBroken("_cbor_decode_half contains a loop")
+    SRC = ("arg", 0)
+    # leaves: the two input bytes
+    hi_t = lo_t = None
+    for pa in ps:
+        for e in pa.events:
+            if e.kind == "load" and ptr_key(e.args[0])[0] == SRC:
+                if ptr_key(e.args[0])[1] == 0:
+                    hi_t = e.res
+                elif ptr_key(e.args[0])[1] == 1:
+                    lo_t = e.res
+    if hi_t is None or lo_t is None:
+        raise AnalysisBroken("_cbor_decode_half does not read halfp[0] and halfp[1]")
+
+    def action(pa, env):
+        r = pa.ret
+        neg = False
+        while isinstance(r, tuple) and (r[0] == "cast" or (r[0] == "op" and r[1] == "fneg")):
+            if r[0] == "op":
+                neg = not neg
+                r = r[3]
+            else:
+                r = r[3]
+        if isinstance(r, tuple) and r[0] == "sel":
+            c = termeval.evaluate(r[1], env, {})
+            r = r[2] if c else r[3]
+        if isinstance(r, tuple) and r[0] == "fc":
+            bits, ty = r[1], r[2]
+            if ty == "float":
+                e_, m_ = (bits >> 23) & 0xFF, bits & 0x7FFFFF
+                full = 0xFF
+            else:
+                e_, m_ = (bits >> 52) & 0x7FF, bits & ((1 << 52) - 1)
+                full = 0x7FF
+            if e_ == full:
+                return ("inf" if m_ == 0 else "nan"), neg
+            return "const", neg
+        if isinstance(r, tuple) and r[0] == "call" and r[1] == "ldexp":
+            return "scaled", neg
+        return "other", neg
+    facts = []
+    for pa in ps:
+        fs = [(t, truth) for t, truth, _ in pa.facts]
+        for t, _ in fs:
+            if t[0] != "icmp":
+                raise AnalysisBroken("_cbor_decode_half branches on a non-integer condition: %r" % (t,))
+        facts.append(fs)
+    bad = []
+    counts = {}
+    for H in range(65536):
+        env = {hi_t: H >> 8, lo_t: H & 0xFF}
+        match = [i for i, fs in enumerate(facts) if all(bool(termeval.evaluate(t, env, {})) == truth for t, truth in fs)]
+        if len(match) != 1:
+            bad.append("pattern %04x is served by %d paths" % (H, len(match)))
+            continue
+        kind, neg = action(ps[match[0]], env)
+        s_, e_, m_ = H >> 15, (H >> 10) & 31, H & 1023
+        if e_ == 31:
+            want = "inf" if m_ == 0 else "nan"
+            ok = kind == want and (neg == bool(s_) or want == "nan")
+        else:
+            want = "scaled"
+            ok = kind == "scaled" and neg == bool(s_)
+        counts[want] = counts.get(want, 0) + 1
+        if not ok and len(bad) < 6:
+            bad.append("pattern %04x (sign %d, exponent %d, mantissa %d) must be %s%s; the decoder takes the '%s'%s path"
+                       % (H, s_, e_, m_, "-" if s_ and want != "nan" else "", want, kind, " negated" if neg else ""))
+    chk.ob("C15.half-classes", "all 65536 half patterns reach the action of their IEEE-754 class", not bad, where, fn=f.name, key="half-classes",
+           detail="; ".join(bad))
+    for k, v in sorted(counts.items()):
+        chk.ob("C15.half-classes", "class %s: %d patterns examined" % (k, v), True, where, fn=f.name, key="half-class:" + k, nontrivial=False)
+    chk.extra["half_patterns_classified"] = sum(counts.values())
